@@ -191,6 +191,9 @@ def _replay(rep, pid, wd, name, k, st, gen, nprog, r, tick, variants, jobs, mode
         runs = unspec = div = unsupported = pairs = nfail = handled = 0
         lost = {}
         for v in vlib.read_ndjson(ver):
+            if v.get("note"):
+                vlib.log(f"[p2] note: {v['note']}")
+                continue
             handled += 1
             if v.get("bad"):
                 raise vlib.ToolError(f"harness could not parse program {v}")
